@@ -81,6 +81,57 @@ def run(check, prog):
     description_probe(check, prog)
     tiff_description_name(check, prog)
     no_module_state(check, prog)
+    dummy_marker(check, prog)
+
+
+def dummy_marker(check, prog):
+    """U13: a two-colour image is written with a padded third channel, and the
+    reader drops the plane named by `_dummy_channel` -- if the marker arrives.
+    clean_concat keeps the metadata of the *first* array it is given, so the
+    marker has to be stored on the array that leads the list: the one under the
+    first key of the order in which the channels are concatenated."""
+    from .common import list_builder
+    q = 'holopy.core.io.vis.display_image'
+    fd = prog.func(q)
+    loc = prog.loc(q, fd)
+    it = Interp(prog, max_depth=0)
+    it.analyze(q)
+    marks = []
+    for e in it.effects:
+        if e['kind'] == 'setitem' and e.get('key') == ('const', '_dummy_channel') and \
+                e['base'][0] == 'attr' and e['base'][2] == 'attrs' and \
+                e['base'][1][0] == 'idx':
+            marks.append(e)
+    check.need('stores of the padded-channel marker on one channel in display_image',
+               len(marks), 1, 'U13-dummy-marker', 'display_image marker',
+               'the plane added to a two-colour image is recorded', loc)
+    orders = []
+    for c in it.calls:
+        if c['name'].endswith('clean_concat') and c['args']:
+            lb = list_builder(c['args'][0])
+            if lb is None:
+                continue
+            elt, itr, _ = lb
+            first = None
+            if itr[0] == 'const' and isinstance(itr[1], str) and itr[1]:
+                first = ('const', itr[1][0])
+            elif itr[0] in ('list', 'tuple') and itr[1] and itr[1][0][0] == 'const':
+                first = itr[1][0]
+            if first is not None and elt[0] == 'idx':
+                orders.append(first)
+    check.need('channel order of the concatenation in display_image', len(orders), 1,
+               'U13-dummy-marker', 'display_image order',
+               'the channels are concatenated in a fixed order of keys', loc)
+    for e in marks:
+        key = e['base'][1][2]
+        check.require(bool(orders) and all(key == f for f in orders), 'U13-dummy-marker',
+                      'display_image marker at line %d' % e['lineno'],
+                      'the marker is stored on the channel that leads the concatenation '
+                      '(clean_concat keeps the first array\'s metadata)', loc,
+                      fail_detail='stored on channel %s, the list starts with %s: for a '
+                      'green / red (or green / blue, blue / red) image the marker is '
+                      'lost and the file reloads with a third, flat channel' % (
+                          show(key), [show(f) for f in orders]))
 
 
 STATELESS = (IO + 'pack_attrs', IO + 'unpack_attrs', IO + 'save', IO + 'save_image',
